@@ -399,3 +399,57 @@ Definition qrecords (c : jconf) (ov : N -> N -> bool) (s : st) (e : elem) : rres
   | GOk ns => qrecords_with c ov s e ns
   | _ => RNoGroup
   end.
+
+(* ---- join operands (Query.materialize / join_data_coordinates / join_dataset_search, then .data_ids(G)) ----
+   An operand is one more relation over a closed sub-group `odims`, joined on its keys.  The query then runs over
+   ds = closure (G ++ odims).  OverlapsVisitor._add_join_operand_connections: the automatic spatial join is decided on
+   the QUERY's dimensions ds -- the most fine-grained members of the two families in ds -- and is skipped only when
+   BOTH of them are elements of the operand's group (the operand then already carries that join).  The caller projects
+   the rows onto G (DISTINCT); the correspondence compares the rows' G-columns as a set. *)
+Record operand := mkOpd { odims : list string; orows : list asg }.
+
+Definition in_operand (o : operand) (a : asg) : bool := existsb (fun r => agrees (odims o) r a) (orows o).
+
+Definition op_embeds (c : jconf) (ds : list string) (o : operand) : bool :=
+  match spatial_pair c ds with
+  | SpPair ea eb => in_group (odims o) ea && in_group (odims o) eb
+  | _ => false
+  end.
+
+Definition mandatory_op (c : jconf) (ds : list string) (o : operand) : list elem :=
+  if op_embeds c ds o then filter defines_rel (gelems c ds) else mandatory c ds.
+
+Definition full_plan_op (c : jconf) (ds : list string) (o : operand) : list elem :=
+  greedy c (length ds) (mandatory_op c ds o) ds.
+
+(* run_plan with one more filter on the joined rows and the automatic spatial join optionally switched off *)
+Definition run_plan_f (c : jconf) (ov : N -> N -> bool) (s : st) (plan : list elem) (ns : list string)
+                      (f : asg -> bool) (nosp : bool) : qres :=
+  if negb (covers c plan ns) then QIncomplete
+  else
+    let base := filter f (filter (joined c (recs s) plan) (cands (recs s) ns)) in
+    match spatial_pair c ns with
+    | SpNone => QOk base
+    | SpMany => QInvalid
+    | SpPair ea eb =>
+      if nosp then QOk base
+      else
+        let sqlrows := filter (pre (ovl s) ea eb) base in
+        if existsb (fun a => has_null (recs s) ea a || has_null (recs s) eb a) sqlrows then QCrash
+        else QOk (filter (sp_overlap ov (recs s) ea eb) sqlrows)
+    end.
+
+Definition run_plan_op (c : jconf) (ov : N -> N -> bool) (s : st) (plan : list elem) (ds : list string) (o : operand) : qres :=
+  run_plan_f c ov s plan ds (in_operand o) (op_embeds c ds o).
+
+Definition query_op (c : jconf) (ov : N -> N -> bool) (s : st) (ds : list string) (o : operand) : qres :=
+  run_plan_op c ov s (full_plan_op c ds o) ds o.
+
+(* specification: the brute-force rows over ds whose projection lies in the operand; when the operand carries the
+   spatial join itself, the relationships only *)
+Definition valid_ns (c : jconf) (d : db) (ns : list string) (a : asg) : bool :=
+  forallb (fun e => has_row c d e a) (spec_elems c ns).
+
+Definition spec_op (c : jconf) (ov : N -> N -> bool) (d : db) (ds : list string) (o : operand) : list asg :=
+  filter (in_operand o)
+         (filter (if op_embeds c ds o then valid_ns c d ds else valid c ov d ds) (cands d ds)).
